@@ -435,10 +435,19 @@ func genLabel(r *rnd) string {
 	return labelPool[r.n(len(labelPool))]
 }
 
+// labels only ever handed to the API (never written into an initial file):
+// spellings that are not in Unicode normal form C, and the names the initial
+// files use for bare labels (so that a relabel can coincide with one)
+var apiLabels = []string{"cafe\u0301", "\u212b", "\u1100\u1161", "bare", "b2", "for", "ünï"}
+
 func genLabels(r *rnd) []string {
 	n := r.n(3)
 	var ls []string
 	for i := 0; i < n; i++ {
+		if r.chance(1, 8) {
+			ls = append(ls, apiLabels[r.n(len(apiLabels))])
+			continue
+		}
 		ls = append(ls, genLabel(r))
 	}
 	return ls
@@ -499,6 +508,12 @@ func genBodyOp(r *rnd, allowNested bool) OpM {
 	case k <= 23:
 		op.Kind = "set_labels"
 		op.Labels = genLabels(r)
+		if r.chance(1, 3) {
+			op.Keep = 1 + r.n(2)
+			if r.chance(1, 2) {
+				op.Labels = nil
+			}
+		}
 	case k == 24:
 		op.Kind = "hold"
 	default:
